@@ -2,6 +2,7 @@ package main
 
 import (
 	"go/ast"
+	"go/constant"
 	"go/token"
 	"go/types"
 	"sort"
@@ -201,7 +202,8 @@ func passesNodeOn(p *Program, h nodeHandler) (*ssa.Function, ssa.Value) {
 // (The emitter, the patcher and the constant pool are not members.)
 func compilerFamily(p *Program, a *anchors) []*ssa.Function {
 	out := []*ssa.Function{a.compile}
-	var rest []*ssa.Function
+	member := map[*ssa.Function]bool{a.compile: true}
+	var cands []*ssa.Function
 	for f := range p.Reachable(a.compile) {
 		if f == a.compile || f == a.emit || f == a.changeOperand || f == a.addConstant || f.Parent() != nil {
 			continue
@@ -209,16 +211,35 @@ func compilerFamily(p *Program, a *anchors) []*ssa.Function {
 		if fnPkg(f) == nil || fnPkg(f).Pkg.Path() != Mod || !recvNamed(f, "", "Eval") {
 			continue
 		}
-		translates := false
-		for _, b := range f.Blocks {
-			for _, ins := range b.Instrs {
-				if cc := callOf(ins); cc != nil && (cc.StaticCallee() == a.emit || cc.StaticCallee() == a.compile) {
-					translates = true
+		if isEmitHelper(p, a, f) {
+			continue // read at its call sites, like the emitter and the patcher
+		}
+		cands = append(cands, f)
+	}
+	sort.Slice(cands, func(i, j int) bool { return p.FnName(cands[i]) < p.FnName(cands[j]) })
+	var rest []*ssa.Function
+	for changed := true; changed; {
+		changed = false
+		for _, f := range cands {
+			if member[f] {
+				continue
+			}
+			translates := false
+			for _, b := range f.Blocks {
+				for _, ins := range b.Instrs {
+					if cc := callOf(ins); cc != nil && (cc.StaticCallee() == a.emit || member[cc.StaticCallee()]) {
+						translates = true
+					}
+					if _, ok := emitAt(p, a, ins); ok {
+						translates = true
+					}
 				}
 			}
-		}
-		if translates {
-			rest = append(rest, f)
+			if translates {
+				member[f] = true
+				rest = append(rest, f)
+				changed = true
+			}
 		}
 	}
 	sort.Slice(rest, func(i, j int) bool { return p.FnName(rest[i]) < p.FnName(rest[j]) })
@@ -756,4 +777,335 @@ func lhsObject(info *types.Info, e ast.Expr) types.Object {
 		return info.Uses[x.Sel]
 	}
 	return nil
+}
+
+// globalMapLiteral: g is a package-level map initialised by a composite
+// literal with constant keys and never written afterwards; its entries (key
+// constant → value expression) with the package's type information.
+func globalMapLiteral(p *Program, g *ssa.Global) (keys []constant.Value, vals []ast.Expr, info *types.Info, ok bool) {
+	if g == nil || g.Object() == nil || g.Pkg == nil {
+		return nil, nil, nil, false
+	}
+	pk := p.ByPath[g.Pkg.Pkg.Path()]
+	if pk == nil {
+		return nil, nil, nil, false
+	}
+	// never written outside the package initialiser
+	for _, fn := range p.Fns {
+		if fn.Name() == "init" && fn.Pkg == g.Pkg && fn.Synthetic != "" {
+			continue
+		}
+		for _, b := range fn.Blocks {
+			for _, ins := range b.Instrs {
+				switch x := ins.(type) {
+				case *ssa.MapUpdate:
+					if ld, isLd := x.Map.(*ssa.UnOp); isLd && ld.X == ssa.Value(g) {
+						return nil, nil, nil, false
+					}
+				case *ssa.Store:
+					if x.Addr == ssa.Value(g) {
+						return nil, nil, nil, false
+					}
+				}
+			}
+		}
+	}
+	for _, f := range pk.Syntax {
+		for _, d := range f.Decls {
+			gd, isGd := d.(*ast.GenDecl)
+			if !isGd || gd.Tok != token.VAR {
+				continue
+			}
+			for _, sp := range gd.Specs {
+				vs := sp.(*ast.ValueSpec)
+				for i, nm := range vs.Names {
+					if pk.TypesInfo.Defs[nm] != g.Object() || i >= len(vs.Values) {
+						continue
+					}
+					cl, isCl := vs.Values[i].(*ast.CompositeLit)
+					if !isCl {
+						return nil, nil, nil, false
+					}
+					for _, el := range cl.Elts {
+						kv, isKv := el.(*ast.KeyValueExpr)
+						if !isKv {
+							return nil, nil, nil, false
+						}
+						tv, has := pk.TypesInfo.Types[kv.Key]
+						if !has || tv.Value == nil {
+							return nil, nil, nil, false
+						}
+						keys = append(keys, tv.Value)
+						vals = append(vals, kv.Value)
+					}
+					return keys, vals, pk.TypesInfo, true
+				}
+			}
+		}
+	}
+	return nil, nil, nil, false
+}
+
+// opcodeSetsAt: which opcodes each tested opcode value of fn can still be on
+// entry to the block, by the comparisons with opcode constants on the way
+// there (a forward union-of-paths analysis; == K keeps K on the true side and
+// drops it on the false side).  Only values whose set is a proper subset of
+// all opcodes are reported.
+func opcodeSetsAt(p *Program, fn *ssa.Function, at *ssa.BasicBlock) map[ssa.Value]map[string]bool {
+	oc := p.Opcodes()
+	// the tested values
+	tested := map[ssa.Value]bool{}
+	test := func(b *ssa.BasicBlock) (v ssa.Value, name string, eq bool, ok bool) {
+		iff, isIf := terminator(b).(*ssa.If)
+		if !isIf {
+			return nil, "", false, false
+		}
+		bo, isBo := iff.Cond.(*ssa.BinOp)
+		if !isBo || (bo.Op != token.EQL && bo.Op != token.NEQ) {
+			return nil, "", false, false
+		}
+		if n := oc.ssaName(bo.Y); n != "" {
+			if _, isC := stripConvSSA(bo.X).(*ssa.Const); !isC {
+				return stripConvSSA(bo.X), n, bo.Op == token.EQL, true
+			}
+		}
+		if n := oc.ssaName(bo.X); n != "" {
+			if _, isC := stripConvSSA(bo.Y).(*ssa.Const); !isC {
+				return stripConvSSA(bo.Y), n, bo.Op == token.EQL, true
+			}
+		}
+		return nil, "", false, false
+	}
+	for _, b := range fn.Blocks {
+		if v, _, _, ok := test(b); ok {
+			tested[v] = true
+		}
+	}
+	out := map[ssa.Value]map[string]bool{}
+	for v := range tested {
+		state := map[*ssa.BasicBlock]map[string]bool{}
+		all := map[string]bool{}
+		for _, n := range oc.names {
+			all[n] = true
+		}
+		if len(fn.Blocks) == 0 {
+			continue
+		}
+		state[fn.Blocks[0]] = all
+		for changed := true; changed; {
+			changed = false
+			for _, b := range fn.Blocks {
+				cur := state[b]
+				if cur == nil {
+					continue
+				}
+				tv, name, eq, isTest := test(b)
+				for i, sc := range b.Succs {
+					next := cur
+					if isTest && tv == v && len(b.Succs) == 2 && b.Succs[0] != b.Succs[1] {
+						next = map[string]bool{}
+						keepOnly := (i == 0) == eq
+						for n := range cur {
+							if keepOnly && n == name || !keepOnly && n != name {
+								next[n] = true
+							}
+						}
+					}
+					if state[sc] == nil {
+						state[sc] = map[string]bool{}
+					}
+					for n := range next {
+						if !state[sc][n] {
+							state[sc][n] = true
+							changed = true
+						}
+					}
+				}
+			}
+		}
+		if s := state[at]; s != nil && len(s) < len(all) {
+			out[v] = s
+		}
+	}
+	return out
+}
+
+var callSiteCache = map[*ssa.Program]map[*ssa.Function][]ssa.CallInstruction{}
+
+// staticCallSites: the call instructions of the program whose static callee
+// is fn (go and defer included).
+func staticCallSites(p *Program, fn *ssa.Function) []ssa.CallInstruction {
+	m := callSiteCache[p.SSA]
+	if m == nil {
+		m = map[*ssa.Function][]ssa.CallInstruction{}
+		for _, g := range p.Fns {
+			for _, b := range g.Blocks {
+				for _, ins := range b.Instrs {
+					if ci, ok := ins.(ssa.CallInstruction); ok {
+						if c := ci.Common().StaticCallee(); c != nil {
+							m[c] = append(m[c], ci)
+						}
+					}
+				}
+			}
+		}
+		callSiteCache[p.SSA] = m
+	}
+	return m[fn]
+}
+
+// globalNeverWritten: nothing but the package initialiser stores into the
+// package-level variable, into an element of it, or takes its address for
+// anything but reading an element.
+func globalNeverWritten(p *Program, g *ssa.Global) bool {
+	for _, fn := range p.Fns {
+		if fn.Name() == "init" && fn.Pkg == g.Pkg && fn.Synthetic != "" {
+			continue
+		}
+		for _, b := range fn.Blocks {
+			for _, ins := range b.Instrs {
+				switch x := ins.(type) {
+				case *ssa.MapUpdate:
+					if ld, isLd := x.Map.(*ssa.UnOp); isLd && ld.X == ssa.Value(g) {
+						return false
+					}
+				case *ssa.Store:
+					if x.Addr == ssa.Value(g) {
+						return false
+					}
+					if ia, ok := x.Addr.(*ssa.IndexAddr); ok {
+						if ia.X == ssa.Value(g) {
+							return false
+						}
+						if ld, isLd := ia.X.(*ssa.UnOp); isLd && ld.X == ssa.Value(g) {
+							return false
+						}
+					}
+				default:
+					// the address handed to something else
+					for _, op := range ins.Operands(nil) {
+						if *op != ssa.Value(g) {
+							continue
+						}
+						switch ins.(type) {
+						case *ssa.UnOp, *ssa.IndexAddr:
+						default:
+							return false
+						}
+					}
+				}
+			}
+		}
+	}
+	return true
+}
+
+// globalLiteralLookup: the value a never-written package-level table (map,
+// array or slice written as a composite literal with constant keys and
+// values) holds for the key; the zero value for a key it does not list.
+func globalLiteralLookup(g *ssa.Global, key constant.Value) (val constant.Value, present bool, ok bool) {
+	p := curProgram
+	if p == nil || g == nil || g.Object() == nil || g.Pkg == nil || key == nil {
+		return nil, false, false
+	}
+	pk := p.ByPath[g.Pkg.Pkg.Path()]
+	if pk == nil || !globalNeverWritten(p, g) {
+		return nil, false, false
+	}
+	var elem types.Type
+	isMap := false
+	length := int64(-1)
+	switch t := g.Object().Type().Underlying().(type) {
+	case *types.Map:
+		elem, isMap = t.Elem(), true
+	case *types.Array:
+		elem, length = t.Elem(), t.Len()
+	case *types.Slice:
+		elem = t.Elem()
+	default:
+		return nil, false, false
+	}
+	zero := func() (constant.Value, bool) {
+		b, isB := elem.Underlying().(*types.Basic)
+		switch {
+		case !isB:
+			return nil, false
+		case b.Info()&types.IsBoolean != 0:
+			return constant.MakeBool(false), true
+		case b.Info()&types.IsInteger != 0:
+			return constant.MakeInt64(0), true
+		case b.Info()&types.IsString != 0:
+			return constant.MakeString(""), true
+		}
+		return nil, false
+	}
+	for _, f := range pk.Syntax {
+		for _, d := range f.Decls {
+			gd, isGd := d.(*ast.GenDecl)
+			if !isGd || gd.Tok != token.VAR {
+				continue
+			}
+			for _, sp := range gd.Specs {
+				vs := sp.(*ast.ValueSpec)
+				for i, nm := range vs.Names {
+					if pk.TypesInfo.Defs[nm] != g.Object() || i >= len(vs.Values) {
+						continue
+					}
+					cl, isCl := vs.Values[i].(*ast.CompositeLit)
+					if !isCl {
+						return nil, false, false
+					}
+					next := int64(0)
+					n := int64(0)
+					var hit constant.Value
+					for _, el := range cl.Elts {
+						var k constant.Value
+						v := el
+						if kv, isKv := el.(*ast.KeyValueExpr); isKv {
+							tv, has := pk.TypesInfo.Types[kv.Key]
+							if !has || tv.Value == nil {
+								return nil, false, false
+							}
+							k, v = tv.Value, kv.Value
+							if !isMap {
+								next, _ = constant.Int64Val(k)
+							}
+						} else if isMap {
+							return nil, false, false
+						} else {
+							k = constant.MakeInt64(next)
+						}
+						next++
+						if next > n {
+							n = next
+						}
+						tv, has := pk.TypesInfo.Types[v]
+						if !has || tv.Value == nil {
+							if constant.Compare(k, token.EQL, key) {
+								return nil, false, false
+							}
+							continue
+						}
+						if k.Kind() == key.Kind() && constant.Compare(k, token.EQL, key) {
+							hit = tv.Value
+						}
+					}
+					if hit != nil {
+						return hit, true, true
+					}
+					if !isMap {
+						if length < 0 {
+							length = n
+						}
+						if key.Kind() != constant.Int || constant.Sign(key) < 0 || !constant.Compare(key, token.LSS, constant.MakeInt64(length)) {
+							return nil, false, false // out of range: a run-time panic, not a value
+						}
+					}
+					z, zok := zero()
+					return z, false, zok
+				}
+			}
+		}
+	}
+	return nil, false, false
 }
